@@ -887,6 +887,85 @@ func (w *World) snapshotAheadTimestampRestore() {
 	_ = w.ldb.Replica.Sync(ctx)
 }
 
+// ---- retention over long listings (the Compactor used by the store and by the VFS compaction monitor) ----
+//
+// listClient: a replica whose listings are given and whose deletions are recorded; everything else is the
+// file client over an empty directory.
+type listClient struct {
+	*file.ReplicaClient
+	mu    sync.Mutex
+	files map[int][]*ltx.FileInfo
+}
+
+func (c *listClient) LTXFiles(ctx context.Context, level int, seek ltx.TXID, useMetadata bool) (ltx.FileIterator, error) {
+	c.mu.Lock()
+	defer c.mu.Unlock()
+	var out []*ltx.FileInfo
+	for _, f := range c.files[level] {
+		if f.MinTXID >= seek {
+			cp := *f
+			out = append(out, &cp)
+		}
+	}
+	return ltx.NewFileInfoSliceIterator(out), nil
+}
+
+func (c *listClient) DeleteLTXFiles(ctx context.Context, a []*ltx.FileInfo) error {
+	c.mu.Lock()
+	defer c.mu.Unlock()
+	for _, d := range a {
+		l := c.files[d.Level]
+		for i, f := range l {
+			if f.MinTXID == d.MinTXID && f.MaxTXID == d.MaxTXID {
+				c.files[d.Level] = append(append([]*ltx.FileInfo{}, l[:i]...), l[i+1:]...)
+				break
+			}
+		}
+	}
+	return nil
+}
+
+// manyFilesRetention: snapshot_survives / "keep one" (Store/RetentionProofs.v) on listings of N files that are
+// ALL expired, for N around powers of two and round numbers (batch sizes of storage APIs): the newest
+// snapshot and the newest file of a level must survive whatever N is (seed C07g: deletions flushed in
+// batches of 1000 while the level is still being scanned).
+func manyFilesRetention(base string) (vs []ImplViolation, n int) {
+	old := time.Now().Add(-100 * time.Hour)
+	for _, N := range []int{1, 2, 3, 63, 64, 65, 100, 128, 256, 500, 512, 999, 1000, 1001, 1024, 2000, 2048, 3000} {
+		dir := filepath.Join(base, fmt.Sprintf("many%d", N))
+		os.MkdirAll(dir, 0o755)
+		c := &listClient{ReplicaClient: file.NewReplicaClient(dir), files: map[int][]*ltx.FileInfo{}}
+		for k := 1; k <= N; k++ {
+			c.files[litestream.SnapshotLevel] = append(c.files[litestream.SnapshotLevel],
+				&ltx.FileInfo{Level: litestream.SnapshotLevel, MinTXID: 1, MaxTXID: ltx.TXID(k), Size: 100, CreatedAt: old.Add(time.Duration(k) * time.Second)})
+			c.files[1] = append(c.files[1], &ltx.FileInfo{Level: 1, MinTXID: ltx.TXID(k), MaxTXID: ltx.TXID(k), Size: 100, CreatedAt: old.Add(time.Duration(k) * time.Second)})
+		}
+		comp := litestream.NewCompactor(c, QuietLogger())
+		n++
+		if _, err := comp.EnforceSnapshotRetention(ctxb, time.Hour); err != nil {
+			vs = append(vs, ImplViolation{Signature: "harness/many-files-retention-error", Detail: err.Error()})
+			continue
+		}
+		left := c.files[litestream.SnapshotLevel]
+		if len(left) == 0 || left[len(left)-1].MaxTXID != ltx.TXID(N) {
+			vs = append(vs, ImplViolation{Signature: "C07/retention-deleted-the-newest-snapshot",
+				Detail:  fmt.Sprintf("Compactor.EnforceSnapshotRetention over %d snapshots 1..k (k = 1..%d), all older than the retention period: %d snapshots are left, the newest (1..%d) is gone", N, N, len(left), N),
+				Replay: map[string]any{"how": "harness store -focus c07 (manyFilesRetention)", "snapshots": N}})
+		}
+		if err := comp.EnforceRetentionByTXID(ctxb, 1, ltx.TXID(N+10)); err != nil {
+			vs = append(vs, ImplViolation{Signature: "harness/many-files-retention-error", Detail: err.Error()})
+			continue
+		}
+		if l1 := c.files[1]; len(l1) == 0 || l1[len(l1)-1].MaxTXID != ltx.TXID(N) {
+			vs = append(vs, ImplViolation{Signature: "C07/txid-retention-deleted-the-newest-file-of-a-level",
+				Detail:  fmt.Sprintf("Compactor.EnforceRetentionByTXID(level 1, floor beyond every file) over %d files: %d are left, the newest is gone", N, len(l1)),
+				Replay: map[string]any{"how": "harness store -focus c07 (manyFilesRetention)", "files": N}})
+		}
+		os.RemoveAll(dir)
+	}
+	return vs, n
+}
+
 func remoteL0Max(replicaDir string) uint64 {
 	ents, _ := os.ReadDir(filepath.Join(replicaDir, "ltx", "0"))
 	var m uint64
@@ -1927,6 +2006,11 @@ func main() {
 	counts := map[string]int{}
 	opCounts := map[string]int{}
 	histories := 0
+	if focus == "c07" && *only < 0 {
+		vs, n := manyFilesRetention(base)
+		violations = append(violations, vs...)
+		counts["many_files_retention_listings"] = n
+	}
 	for i, res := range results {
 		if *only >= 0 && i != *only {
 			continue
